@@ -2,4 +2,5 @@
 open Model
 let table : (string * (proj * (config -> trace -> violation list))) list = [
   ("full", (pi_full, p_none));
+  ("C14", (pi_C14, p_C14));
 ]
